@@ -170,6 +170,7 @@ package wire
 // a ping waits for its pong for exactly the configured timeout
 //@ func (*ClientConn).sendPing
 //@   props C15 C06
+//@   nopanic[C12] typeassert
 //@   ghostvar drawn uint32 = 0
 //@   ghostvar fresh1 bool = false
 //@   after call IDGenerator).Next: drawn = res0
@@ -221,6 +222,7 @@ package wire
 // freshly drawn from the connection's generator - never a reused message or a remembered id.
 //@ func (*ClientConn).SendUpstreamMetadata
 //@   props C06
+//@   nopanic[C12] typeassert
 //@   ghostvar drawn uint32 = 0
 //@   ghostvar fresh1 bool = false
 //@   after call IDGenerator).Next: drawn = res0
@@ -228,6 +230,7 @@ package wire
 //@   assert call sendRequest: fresh1 && msg.RequestID == drawn
 //@ func (*ClientConn).SendUpstreamOpenRequest
 //@   props C06
+//@   nopanic[C12] typeassert
 //@   ghostvar drawn uint32 = 0
 //@   ghostvar fresh1 bool = false
 //@   after call IDGenerator).Next: drawn = res0
@@ -235,6 +238,7 @@ package wire
 //@   assert call sendRequest: fresh1 && req.RequestID == drawn
 //@ func (*ClientConn).SendUpstreamCloseRequest
 //@   props C06
+//@   nopanic[C12] typeassert
 //@   ghostvar drawn uint32 = 0
 //@   ghostvar fresh1 bool = false
 //@   after call IDGenerator).Next: drawn = res0
@@ -242,6 +246,7 @@ package wire
 //@   assert call sendRequest: fresh1 && req.RequestID == drawn
 //@ func (*ClientConn).SendDownstreamResumeRequest
 //@   props C06
+//@   nopanic[C12] typeassert
 //@   ghostvar drawn uint32 = 0
 //@   ghostvar fresh1 bool = false
 //@   after call IDGenerator).Next: drawn = res0
@@ -249,6 +254,7 @@ package wire
 //@   assert call sendRequest: fresh1 && req.RequestID == drawn
 //@ func (*ClientConn).SendDownstreamOpenRequest
 //@   props C06
+//@   nopanic[C12] typeassert
 //@   ghostvar drawn uint32 = 0
 //@   ghostvar fresh1 bool = false
 //@   after call IDGenerator).Next: drawn = res0
@@ -256,11 +262,26 @@ package wire
 //@   assert call sendRequest: fresh1 && req.RequestID == drawn
 //@ func (*ClientConn).SendDownstreamCloseRequest
 //@   props C06
+//@   nopanic[C12] typeassert
 //@   ghostvar drawn uint32 = 0
 //@   ghostvar fresh1 bool = false
 //@   after call IDGenerator).Next: drawn = res0
 //@   after call IDGenerator).Next: fresh1 = true
 //@   assert call sendRequest: fresh1 && req.RequestID == drawn
+
+//@ func (*ClientConn).SendUpstreamResumeRequest
+//@   props C06
+//@   nopanic[C12] typeassert
+//@   ghostvar drawn uint32 = 0
+//@   ghostvar fresh1 bool = false
+//@   after call IDGenerator).Next: drawn = res0
+//@   after call IDGenerator).Next: fresh1 = true
+//@   assert call sendRequest: fresh1 && req.RequestID == drawn
+
+// C12 (wire read path): whatever the broker sends back under a request's id - the reply dispatcher
+// routes by id only - the requesting call returns a response of the expected type or an error; it
+// never panics on a response of an unexpected type (`nopanic[C12] typeassert` on sendPing and the Send*Request methods above: every type
+// assertion in them is an obligation).
 
 // ---------------------------------------------------------------- C07: registering an upstream
 // Opening (or resuming) an upstream registers, under its alias, an ack channel made for this very
